@@ -142,6 +142,9 @@ def parse(case: str) -> dict:
         d["cancel"] = "0"
     if d["form"] != "meth":
         d["recv"] = "a"
+    d.setdefault("nest", "0")
+    if not d["deco"].startswith("asyn") or d["block"] == "1":
+        d["nest"] = "0"
     d["callobj"] = "0"
     if d["form"] == "obj":      # a callable object handed to the decorator: everywhere else it is a plain function call
         d["form"], d["callobj"] = "fn", "1" if d["deco"] in OBJ_DECOS else "x"
@@ -304,6 +307,25 @@ class Env:
             label = "Xlog"
         return f"{st}/{label}"
 
+    def nested_call(self) -> str:
+        from haiway import asynchronous
+
+        seen = {}
+
+        def inner():
+            seen["w"] = "loop" if threading.get_ident() == self.loop_thread else "other"
+
+        wrapped = asynchronous(inner)
+
+        async def bridge():
+            await wrapped()
+
+        try:
+            asyncio.run_coroutine_threadsafe(bridge(), self.loop).result(timeout=5)
+        except BaseException as exc:  # noqa: BLE001
+            return "err:" + type(exc).__name__
+        return seen.get("w", "norun")
+
     def body(self, names, local):
         self.observe(names, local)
         return self.finish()
@@ -337,6 +359,10 @@ class Env:
                 pass
         if self.d["block"] == "1":
             self.beat_seen = "beat" if self.gate.wait(2.0) else "nobeat"
+        if self.d.get("nest") == "1" and self.where == "other":
+            # sync code in the executor bridges back to async code, which calls another `asynchronous` function: that call
+            # starts from a context descending from a worker's context - it still runs off the loop thread
+            self.where += "+" + self.nested_call()
         if self.d.get("spawn") == "1" and self.spawn_gate is not None:
             gate = self.spawn_gate
 
@@ -841,6 +867,9 @@ def monitor(case: str, out: str) -> list[str]:
             fails.append("wrap.off-thread")
         if d["block"] == "1" and not o_where.endswith(",beat"):
             fails.append("wrap.loop-blocked")
+        if d.get("nest") == "1" and o_where.startswith("other") and "+other" not in o_where:
+            # a call made from async code that sync code in the executor bridged back to: still off the loop thread
+            fails.append("wrap.on-loop-thread.nested")
     if d["form"] != "fn":
         # every call of the sequence must have run on the receiver it was made on, through the subclass override if any
         steps = d["recv"].split(",") if d["form"] == "meth" else ["a"]
@@ -949,6 +978,7 @@ def gen_case(rng, deco=None) -> str:
     leak = rng.choice([0, 0, 0, 9])
     rec = rng.choice([0, 0, 4])
     block = "1" if deco.startswith("asyn") and rng.random() < 0.12 else "0"
+    nest = " nest=1" if deco.startswith("asyn") and block == "0" and rng.random() < 0.1 else ""
     extra = ""
     if deco in ("wasync_a", "traced_a") and rng.random() < 0.25:
         extra += " cancel=1"
@@ -960,7 +990,7 @@ def gen_case(rng, deco=None) -> str:
         extra += " recv=" + ",".join(rng.choice("aacbse") for _ in range(rng.randint(2, 4)))
     return (f"deco={deco} form={form} root={root} site={'.'.join(site) or '-'} sig={sig} pos={','.join(pos) or '-'} "
             f"kw={','.join(f'{k}:{v}' for k, v in kw.items()) or '-'} out={out} leak={leak} rec={rec} block={block} "
-            f"doc={rng.choice('1110')}{extra}")
+            f"doc={rng.choice('1110')}{extra}{nest}")
 
 
 def generate(rng, tier):
@@ -979,6 +1009,8 @@ def corpus():
         f"deco=asyn form=cls {base}",                          # through the class: the receiver is the first argument
         f"deco=asyn form=fn {base} leak=9 rec=4",             # context changes stay in the copy; metrics reach the caller's scope
         f"deco=asyn form=fn {base} block=1",                   # loop keeps serving
+        f"deco=asyn form=fn {base} nest=1",                    # executor -> loop -> executor
+        f"deco=asyn_ex form=meth {base} nest=1",
         f"deco=asyn_loop form=fn root=0 site=- sig=3 pos=i1 kw=q:t out=e:B",
         f"deco=wasync_s form=fn {base} leak=9",
         f"deco=wasync_a form=meth {base} out=e:C",
